@@ -192,7 +192,8 @@ class C05(Check):
             "scope's Concurrent (nested), simultaneous failures, failures during graceful shutdown, plus "
             'cancellations/closures/escaping TaskCancelled that must not appear; 0-3 injected cancels. '
             'non-trivial = a failed block with >=2 child failures, or a failure next to a suppressed kind, or '
-            'body and child failure together; distinct by sha1(program+faults).')
+            'body and child failure together; distinct by sha1(program+faults). Also directed programs in which a child fails while '
+            'the body leaves an inner until-block (firing in that step) through asynchronous clean-up.')
     budgets = {'quick': dict(examples=2000, procs=4), 'thorough': dict(examples=150000, procs=16)}
     level_text = ('For every block of every generated tree the exception leaving the block is compared with the '
                   'exact expected one computed from the logged child/body failures (identity of program-raised '
